@@ -1405,10 +1405,11 @@ class FlipEnumParallel(ADEVPrimitive):
         (p_primal,) = Dual.tree_primal(dual_tree)
         (p_tangent,) = Dual.tree_tangent(dual_tree)
         support = jnp.array([True, False])
-        ret_primals, ret_tangents = modular_vmap(kdual)(
-            (support,),
-            (_discrete_zero_tangent(support)),
+        ret_duals = modular_vmap(lambda v, t: kdual(Dual(v, t)))(
+            support,
+            _discrete_zero_tangent(support),
         )
+        (ret_primals,), (ret_tangents,) = Dual.tree_unzip(ret_duals)
 
         def _inner(p, ret):
             return jnp.sum(jnp.array([p, 1 - p]) * ret)
@@ -1447,9 +1448,11 @@ class CategoricalEnumParallel(ADEVPrimitive):
         (probs_primal,) = Dual.tree_primal(dual_tree)
         (probs_tangent,) = Dual.tree_tangent(dual_tree)
         idxs = jnp.arange(len(probs_primal))
-        ret_primals, ret_tangents = modular_vmap(kdual)(
-            (idxs,), (_discrete_zero_tangent(idxs),)
+        ret_duals = modular_vmap(lambda v, t: kdual(Dual(v, t)))(
+            idxs,
+            _discrete_zero_tangent(idxs),
         )
+        (ret_primals,), (ret_tangents,) = Dual.tree_unzip(ret_duals)
 
         def _inner(probs, primals):
             return jnp.sum(jax.nn.softmax(probs) * primals)
